@@ -1231,7 +1231,14 @@ class MemoryCache:
     def put(self, memento: Memento, result: object, has_result: bool):
         cache_key = self._cache_key_for_memento(memento)
         if has_result:
+            # Drop any older weak reference first: _put_ref keeps the previous one when the
+            # new result cannot be weakly referenced
+            self.refs.pop(cache_key, None)
             self._put_ref(cache_key, result)
+
+        # Remove any existing cached items for this memento, also when the new object turns
+        # out to be too big to be cached, so that a stale value is never served
+        self._evict(cache_key)
 
         # If the object is too big to fit in the cache, return immediately
         obj_size = self._estimate_object_size(result)
@@ -1244,9 +1251,6 @@ class MemoryCache:
         if isinstance(result, pd.DataFrame) or isinstance(result, pd.Series):
             result = result.copy()
             self._put_ref(cache_key, result)
-
-        # Remove any existing cached items for this memento
-        self._evict(cache_key)
 
         # Free up memory in the cache (if needed) by discarding LRU
         while (
